@@ -477,6 +477,15 @@ def Full.step (f : Full) (line : String) : Full :=
     -- (a name Create refuses is refused both times: nothing to judge)
     { f with w := if arg toks "first" == "ok" && arg toks "second" == "ok" then
         w.fail "C14" "create" s!"peer {toks.getD 1 ""}: Create over an existing local database succeeded without overwrite: the options value had been used for Open(name, Create: true) before, which wrote Overwrite={arg toks "overwrite"} into it" else w }
+  | "reuseac" =>
+    let w := bump f.w
+    -- with no write list given, the creator's own id is the default: whoever used the parameters value before
+    { f with w := if arg toks "second" == "ok" && arg toks "write" != toks.getD 2 "" then
+        w.fail "C14" "acl" s!"peer {toks.getD 2 ""} created a database with no write list given and its write list is [{arg toks "write"}], not its own id: the access controller parameters value had been handed to peer {toks.getD 1 ""}'s DetermineAddress before, which wrote into it" else w }
+  | "reusefront" =>
+    let w := bump f.w
+    { f with w := if arg toks "first" == "ok" && arg toks "second" == "ok" then
+        w.fail "C14" "create" s!"peer {toks.getD 1 ""}: Open of a name that was never created succeeded although the caller never set Create: the options value had been handed to a typed front end before, which wrote Create={arg toks "create"} into it" else w }
   | "eglobal" =>
     let w := bump f.w
     let w := if arg toks "first" != "true" then w.fail "C16" "loss" "GlobalChannel: the first caller did not receive the emitted event" else w
